@@ -626,7 +626,11 @@ func runCheck(ctx *Ctx) int {
 	// ---- extras (own machinery per property)
 	extraNotes := map[string]string{}
 	runExtras := func() {
-		for _, e := range p.Extras {
+		extras := append([]Extra{}, p.Extras...)
+		for _, h := range ExtraHooks {
+			extras = append(extras, h(p, verif)...)
+		}
+		for _, e := range extras {
 			if !tierIn(e.Tiers, ctx.Tier) {
 				continue
 			}
